@@ -94,6 +94,16 @@ def replay(cases):
                 if bool(obs[op]) != want[op]:
                     viol.append(("compare", "%s %s %s is %r but the instants compare as %d"
                                  % (_fields(t), op, _fields(u), obs[op], cmp_), c["day"]))
+        for fu, cmp_ in c.get("xp", []):      # same-day instants differing in several fields at once, both signs
+            u = ObsTime(y, m, d, *fu)
+            obs = {"<": t < u, ">": t > u, "<=": t <= u, ">=": t >= u, "==": t == u, "!=": t != u, "r<": u < t, "r>": u > t, "r==": u == t}
+            want = {"<": cmp_ < 0, ">": cmp_ > 0, "<=": cmp_ <= 0, ">=": cmp_ >= 0, "==": cmp_ == 0, "!=": cmp_ != 0,
+                    "r<": cmp_ > 0, "r>": cmp_ < 0, "r==": cmp_ == 0}
+            for op in obs:
+                if bool(obs[op]) != want[op]:
+                    viol.append(("compare/multi-field", "%s %s %s is %r but the instants compare as %d"
+                                 % (_fields(t), op, [y, m, d] + list(fu), obs[op], cmp_), c["day"]))
+                    break
         tc = ObsTime(y, m, d, h, mi, s, ms)
         if not (t == tc) or (t != tc) or (t < tc) or (t > tc) or not (t <= tc) or not (t >= tc):
             viol.append(("compare", "reflexive comparison wrong on %s" % _fields(t), c["day"]))
@@ -147,6 +157,7 @@ INVARIANT WellFormed
 INVARIANT SumAgrees
 INVARIANT LoopsInvert
 INVARIANT OrderAgrees
+INVARIANT OrderAgreesX
 PROPERTY DayChain
 CHECK_DEADLOCK FALSE
 """ % (y0, y1, ", ".join(str(t) for t in sorted(tods)), "TRUE" if emit else "FALSE")
